@@ -29,10 +29,8 @@ def child(what, arg):
                list(r.bound_arguments))
     elif what == "loopy":
         bp = pt.generate_loopy(outs)
-        knl = bp.program.default_entrypoint
-        obs = ([str(i) for i in knl.instructions], [a.name for a in knl.args],
-               list(knl.temporary_variables), [str(d) for d in knl.domains],
-               list(bp.bound_arguments))
+        from pyvc.det_programs import observe_kernel
+        obs = observe_kernel(bp)
     elif what == "numpy":
         from pytato.target.python import (BoundPythonProgram,
                                           NumpyLikePythonTarget)
